@@ -33,12 +33,15 @@ def swarm(prop, r, tier):
     cfg["zero_params"] = R.pick([0.0, 0.0, 0.08])
     cfg["sparse"] = R.chance(0.3)
     cfg["deprecated_iq"] = R.chance(0.25)
+    cfg["mixed_scale"] = prop in ("C01", "C02", "C03", "C07", "C09") and R.chance(0.1)
+    if prop in ("C01", "C02", "C07") and R.chance(0.03):
+        cfg["names"] = "summary"
     cfg["tables2d_general"] = R.pick([0.3, 0.6])
     cfg["inf_limits"] = R.chance(0.15)
     cfg["via_file"] = R.pick([0.0, 0.0, 0.25])
-    cfg["collapse_inputs"] = prop in ("C12", "C16") and R.chance(0.06)
+    cfg["collapse_inputs"] = prop in ("C12", "C16", "C14") and R.chance(0.06)
     # nA..uA systems (everything scaled down): same laws, nanowatt losses
-    cfg["micro"] = prop not in ("C03", "C18", "C17") and R.chance(0.07)
+    cfg["micro"] = prop not in ("C03", "C17") and R.chance(0.07)
     # a random subset of kinds is disabled (swarm)
     kinds = list(KINDS)
     for k in R.sample(ALL_CHILD_KINDS, R.randint(0, 4)):
